@@ -866,9 +866,9 @@ Proof.
   apply ok_bind; [apply decoders_ok|]. intros r1 _ _. apply IH.
 Qed.
 
-(* the pre-fix GetString (Msg.get_lstr) does panic: the Panic outcome is not vacuous *)
+(* the pre-fix GetString (get_lstr_unfixed) does panic: the Panic outcome is not vacuous *)
 Lemma unfixed_get_lstr_panics :
-  exists fs, snd (get_lstr (reader_of fs)) = MPanic.
+  exists fs, snd (get_lstr_unfixed (reader_of fs)) = MPanic.
 Proof.
   exists [([xff; xff; xff; xff; xff; xff; xff; xff], true)]. vm_compute. reflexivity.
 Qed.
